@@ -23,7 +23,7 @@ PROFILES = {
     "C10": {"hooks": True, "exec_fail": 0.15, "ops": {"wake": 0.25, "check": 0.1}, "req": {}},
     # (with the default weights of the other commands the cumulated weights passed 1 before `ro` and the malformed messages
     # were reached: C11 never sent a read-only request — every weight is spelled out now)
-    "C11": {"recipes": {"singleton_set": 0.04, "options_observe": 0.08}, "ops": {"wake": 0.25}, "set_extra": True,
+    "C11": {"recipes": {"singleton_set": 0.04, "options_observe": 0.08}, "ops": {"wake": 0.25}, "set_extra": True, "owner": 0.3,
             "req": {"ssr": 0.16, "reload": 0.05, "incr": 0.08, "set": 0.2, "kill": 0.1, "signal": 0.1, "rm": 0.03, "add": 0.1, "quit": 0.01,
                     "ro": 0.13}},
     "C14": {"recipes": {"signal_veto": 0.05, "reap_veto": 0.05}, "hooks": True, "stubborn": 0.2, "ops": {"wake": 0.45},
